@@ -231,7 +231,8 @@ PROPS = {
                       "Go-map-order effects. Any difference in the printed bytes (or value vs error) is a violation; the replay is the single program.",
         "level_note": "Trusted: process isolation as the source of seed variation (seeds come from crypto/rand and are outside the harness's control: detection is probabilistic, a pass never depends on them), rapid. "
                       "Programs never put two values at one sequence index (finding seq-superimposed-index makes the result seed-dependent; excluded by construction).",
-        "tests": [{"name": "TestC07", "quick": 12, "thorough": 150}],
+        "tests": [{"name": "TestC07", "quick": 12, "thorough": 50}],
+        "shards": {"thorough": 8},
         "tools": ["evalbatch"],
         "rule": "every program is non-trivial by construction (its output depends on a collection with >= 9 members, above frozen's 8-element leaf where insertion order stops deciding enumeration order); evaluations counts programs, not batches. Distinct = distinct program text.",
         "assumptions": COMMON_ASSUMPTIONS + [
